@@ -168,7 +168,7 @@ func RunSaga(c *core.Ctx) {
 		}
 		sparseRows[i] = ad.NewSparseConstFloat64Vector(idx, val, d)
 	}
-	evals, faultHit := 0, false
+	evals, faultHit, faultRow := 0, false, -1
 	resid := func(i int, x ad.DenseFloat64Vector) (float64, error) {
 		k := evals
 		evals++
@@ -179,6 +179,7 @@ func RunSaga(c *core.Ctx) {
 		}
 		if k == failAt {
 			faultHit = true
+			faultRow = i
 			c.Count("fault:" + failKind)
 			if failKind == "error" {
 				return 0, errSagaInjected
@@ -341,6 +342,20 @@ func RunSaga(c *core.Ctx) {
 	// a failure of the environment must be reported, never swallowed
 	if faultHit && failKind == "error" && err == nil {
 		c.Fail("error-reported", what+"|objective-error-swallowed", "%s: evaluation %d of the objective returned an error, but the run ended with err == nil (%s) and returned %v", what, failAt, exit, vecFloats(xr))
+	}
+	// a NaN handed back by a component objective enters the gradient table and
+	// the running average and never leaves them: a run that ends without an
+	// error after it has swallowed it, whatever it returns
+	rowNonZero := false
+	if faultRow >= 0 {
+		for _, v := range A[faultRow] {
+			rowNonZero = rowNonZero || v != 0
+		}
+	}
+	// (a component with a zero data row has a zero gradient whatever its
+	// residual is: a NaN there has no way in)
+	if faultHit && failKind == "nan" && err == nil && rowNonZero {
+		c.Fail("error-reported", what+"|objective-nan-swallowed", "%s (%s): evaluation %d of the objective returned NaN, but the run ended with err == nil (%s after %d epochs) and returned %v", what, regName, failAt, exit, hookCalls, vecFloats(xr))
 	}
 	if err == nil {
 		for _, v := range vecFloats(xr) {
